@@ -25,7 +25,8 @@ def localPure (exp : GType) (dfn : Definition) (v : Value) : Bool :=
     | .variable => true
     | .list => (match exp with | .named _ _ _ => false | .list _ _ _ => true)
     | .int => defOneOf dfn [str "Int", str "Float", str "ID"] &&
-        (!defOneOf dfn [str "Int"] || parseIntErr 32 v.raw == .none)
+        (!defOneOf dfn [str "Int"] || parseIntErr 32 v.raw == .none) &&
+        (defOneOf dfn [str "Int"] || !defOneOf dfn [str "Float"] || !floatErr v.raw)
     | .float => defOneOf dfn [str "Float"] && !floatErr v.raw
     | .string => dfn.kind != .enum && defOneOf dfn [str "String", str "ID"]
     | .block => dfn.kind != .enum && defOneOf dfn [str "String", str "ID"]
@@ -142,11 +143,13 @@ theorem defOK_of_type? {s : Schema} (hs : schemaOK s = true) {n : Name} {d : Def
   rw [List.all_eq_true] at hs
   exact hs (n, d) (mem_of_lookup' s.types n d h)
 
-/-- the numeric literals: model of `strconv` and specification arithmetic agree on the text.
-    (An IntValue lexeme satisfies the first conjunct; see `ValuesCorrectNum.lean`.) -/
+/-- the numeric literals: model of `strconv` and specification arithmetic agree on the text —
+    `ParseInt(·, 10, 32)` with `Spec.int32Ok` and `ParseFloat(·, 64)` (error or ±Inf) with
+    `Spec.floatLitFinite` for an IntValue, the latter for a FloatValue.  An IntValue LEXEME satisfies
+    both of its conjuncts (`numLeafOK_int_of_lexeme` in `ValuesCorrectNum.lean`), whatever its size. -/
 def numLeafOK (k : ValueKind) (raw : Bytes) : Bool :=
   match k with
-  | .int => ((parseIntErr 32 raw == .none) == Spec.int32Ok raw) && Spec.floatLitFinite raw
+  | .int => ((parseIntErr 32 raw == .none) == Spec.int32Ok raw) && (floatErr raw == !Spec.floatLitFinite raw)
   | .float => floatErr raw == !Spec.floatLitFinite raw
   | _ => true
 
